@@ -26,12 +26,13 @@ EXTENDS LiskBFT, Json, SequencesExt
 
 CONSTANTS Win, InitW, InitPCT, InitCertT, Gens,    \* Gens: generator list (sequence of validators)
           ParamChoices,   \* sequence of [pcT, certT, w, gens] a block may switch to
-          MaxChg, MaxLen, Now, MaxSteps, MaxDel,
+          MaxChg, MaxLen, Now, MaxSteps, MaxDel, MaxTie,
           Mutations,      \* set of mutation names enabled in this configuration
           DumpEvery
 
-VARIABLES chain, vstack, fin, temp, evlog, script
-vars == <<chain, vstack, fin, temp, evlog, script>>
+VARIABLES chain, vstack, fin, temp, evlog, script,
+          recvKnown   \* the node knows when it received its tip (FALSE after a restart: the tip counts as synced)
+vars == <<chain, vstack, fin, temp, evlog, script, recvKnown>>
 
 Genesis0 == SetGenKeys(SetParams(GenesisVotes(0, Win), InitPCT, InitCertT, InitW), Gens)
 
@@ -146,7 +147,7 @@ Step(c, accepted, ch, vs, f, tp, ev, newEvents) ==
    stateRoot |-> c.stateRoot, vhash |-> c.vhash, txStatic |-> c.txStatic, payload |-> c.payload, chg |-> c.chg, ntx |-> c.ntx, mut |-> c.mut,
    accepted |-> accepted, events |-> newEvents, obs |-> Obs(ch, vs, f, tp, ev)]
 
-Init == /\ chain = <<>> /\ vstack = <<Genesis0>> /\ fin = 0 /\ temp = {} /\ evlog = <<>> /\ script = <<>>
+Init == /\ chain = <<>> /\ vstack = <<Genesis0>> /\ fin = 0 /\ temp = {} /\ evlog = <<>> /\ script = <<>> /\ recvKnown = FALSE
 
 SubmitValid ==
   /\ Len(chain) < MaxLen /\ Len(script) < MaxSteps
@@ -162,6 +163,7 @@ SubmitValid ==
              /\ evlog' = evlog \o ne
              /\ temp' = temp
              /\ script' = Append(script, Step(c, TRUE, chain', vstack', f2, temp, evlog', ne))
+             /\ recvKnown' = TRUE
 
 \* single-rule mutants of the valid successors of the current state (all must be rejected and change nothing)
 Probes ==
@@ -172,7 +174,7 @@ Probes ==
 NDel == Cardinality({i \in 1..Len(script) : script[i].op = "delete"})
 NRestart == Cardinality({i \in 1..Len(script) : script[i].op = "restart"})
 DeleteTip ==
-  /\ Len(script) < MaxSteps /\ Len(chain) > 0 /\ NDel < MaxDel
+  /\ Len(script) < MaxSteps /\ Len(chain) > 0 /\ NDel < MaxDel /\ UNCHANGED recvKnown
   /\ \E saveTemp \in BOOLEAN :
        IF Tip.h <= fin
        THEN /\ script' = Append(script, [op |-> "delete", saveTemp |-> saveTemp, ok |-> FALSE, events |-> <<>>, obs |-> Obs(chain, vstack, fin, temp, evlog)])
@@ -185,12 +187,47 @@ DeleteTip ==
             /\ script' = Append(script, [op |-> "delete", saveTemp |-> saveTemp, ok |-> TRUE, events |-> <<<<"delete", Tip.h, 0>>>>,
                                          obs |-> Obs(chain', vstack', fin, temp', evlog')])
 
+\* LIP-0014 tie break: a block competing with the tip (same height, same maxHeightPrevoted, same parent) by the
+\* generator of the current slot Now, received within its slot, while the tip (of an earlier slot) was not: the tip
+\* is removed and the competitor applied on the parent state.  The finalized height must not move back.
+ParentV == vstack[Len(vstack) - 1]
+ParentTip == IF Len(chain) = 1 THEN [h |-> 0, slot |-> 0, gen |-> 0, mhg |-> 0, mhp |-> 0] ELSE chain[Len(chain) - 1]
+LastForgedBelow(g) ==
+  LET hs == {chain[i].h : i \in {j \in 1..(Len(chain) - 1) : chain[j].gen = g}} IN
+  IF hs = {} THEN 0 ELSE CHOOSE y \in hs : \A z \in hs : z <= y
+TieBreakCand ==
+  LET g == GenAt(ParentV, Tip.h, Now) IN
+  [version |-> 2, h |-> Tip.h, prev |-> "parent", slot |-> Now, gen |-> g, signer |-> g, sig |-> "ok", mhp |-> ParentV.mhpv,
+   mhg |-> LastForgedBelow(g), ac |-> [h |-> ParentV.cert, kind |-> "empty", signers |-> {}],
+   txRoot |-> "ok", assetRoot |-> "ok", eventRoot |-> "ok", stateRoot |-> "ok", vhash |-> "ok", txStatic |-> "ok", payload |-> "ok",
+   chg |-> 0, ntx |-> 0, mut |-> "none"]
+NTie == Cardinality({i \in 1..Len(script) : script[i].op = "tiebreak"})
+SubmitTieBreak ==
+  /\ Len(script) < MaxSteps /\ Len(chain) >= 1 /\ Tip.slot < Now /\ NTie < MaxTie
+  /\ UNCHANGED recvKnown        \* the tie-break branch is entered only when it is already TRUE
+  /\ LET c == TieBreakCand IN
+     /\ c.gen # Tip.gen                       \* same generator would be double forging (discarded)
+     /\ c.mhp = Tip.mhp
+     /\ ~ContraChain(ParentV, Hdr(c))
+     /\ IF Tip.h <= fin \/ ~recvKnown
+        THEN \* the tip is final (cannot be removed) or counts as synced (no tie break): nothing changes
+             /\ script' = Append(script, [Step(c, FALSE, chain, vstack, fin, temp, evlog, <<>>) EXCEPT !.op = "tiebreak"])
+             /\ UNCHANGED <<chain, vstack, fin, temp, evlog>>
+        ELSE LET v1 == Apply(ParentV, Hdr(c))
+                 f2 == Max2(fin, v1.mhpc)
+                 ne == <<<<"delete", Tip.h, 0>>>> \o (IF v1.mhpc > fin THEN <<<<"finalize", fin, v1.mhpc>>>> ELSE <<>>) \o <<<<"new", c.h, 0>>>>
+             IN /\ chain' = Append(SubSeq(chain, 1, Len(chain) - 1), [h |-> c.h, slot |-> c.slot, gen |-> c.gen, mhg |-> c.mhg, mhp |-> c.mhp, chg |-> 0, ntx |-> 0])
+                /\ vstack' = Append(SubSeq(vstack, 1, Len(vstack) - 1), v1)
+                /\ fin' = f2 /\ temp' = temp /\ evlog' = evlog \o ne
+                /\ script' = Append(script, [Step(c, TRUE, chain', vstack', f2, temp, evlog', ne) EXCEPT !.op = "tiebreak"])
+
 Restart ==
   /\ Len(script) < MaxSteps /\ Len(script) > 0 /\ NRestart < 1
   /\ script' = Append(script, [op |-> "restart", obs |-> Obs(chain, vstack, fin, temp, evlog)])
+  /\ recvKnown' = FALSE
   /\ UNCHANGED <<chain, vstack, fin, temp, evlog>>
 
-Next == SubmitValid \/ DeleteTip \/ Restart
+Next == SubmitValid \/ SubmitTieBreak \/ DeleteTip \/ Restart
 Spec == Init /\ [][Next]_vars
 
 (* ------------------------------- properties ------------------------------ *)
